@@ -29,7 +29,7 @@ Qed.
 
 Definition addresses (o : op) (k : cell_id) : bool :=
   match o with OCell k' _ => cell_eqb k k' | _ => false end.
-Definition is_owner_op (o : op) : bool := match o with OSetOwner _ | OLockOwner => true | _ => false end.
+Definition is_owner_op (o : op) : bool := match o with OSetOwner _ | OLockOwner | OReservedRolePath _ => true | _ => false end.
 Definition locked_at (s : state) (k : cell_id) : Prop := c_locked (get k (s_cells s)) = true.
 
 (* one step: a locked substate is left exactly as it is (value and lock), whoever calls and whatever
@@ -38,7 +38,7 @@ Lemma cell_step : forall s c o k, locked_at s k ->
   get k (s_cells (fst (step s c o))) = get k (s_cells s) /\
   (addresses o k = true -> snd (step s c o) <> Ok).
 Proof.
-  unfold locked_at. intros s c o k Hl. destruct o as [k' so|r|]; cbn.
+  unfold locked_at. intros s c o k Hl. destruct o as [k' so|r| |r|]; cbn.
   - destruct (auth c); cbn; [|split; [reflexivity|discriminate]].
     unfold open_mut. destruct (c_locked (get k' (s_cells s))) eqn:El'; cbn.
     + split; [reflexivity|discriminate].
@@ -50,18 +50,22 @@ Proof.
     destruct (o_locked (s_owner s)); cbn; split; try reflexivity; discriminate.
   - destruct (owner_update_permitted (s_owner s) c); cbn; [|split; [reflexivity|discriminate]].
     destruct (o_locked (s_owner s)); cbn; split; try reflexivity; discriminate.
+  - split; [reflexivity|discriminate].
+  - destruct (auth c); cbn; split; try reflexivity; discriminate.
 Qed.
 
 Lemma owner_step : forall s c o, o_locked (s_owner s) = true ->
   s_owner (fst (step s c o)) = s_owner s /\ (is_owner_op o = true -> snd (step s c o) <> Ok).
 Proof.
-  intros s c o Hl. destruct o as [k' so|r|]; cbn.
+  intros s c o Hl. destruct o as [k' so|r| |r|]; cbn.
   - destruct (auth c); cbn; [|split; [reflexivity|discriminate]].
     destruct (open_mut (get k' (s_cells s))); cbn; split; try reflexivity; discriminate.
   - destruct (owner_update_permitted (s_owner s) c); cbn; [|split; [reflexivity|discriminate]].
     rewrite Hl. cbn. split; [reflexivity|discriminate].
   - destruct (owner_update_permitted (s_owner s) c); cbn; [|split; [reflexivity|discriminate]].
     rewrite Hl. cbn. split; [reflexivity|discriminate].
+  - split; [reflexivity|discriminate].
+  - destruct (auth c); cbn; split; try reflexivity; discriminate.
 Qed.
 
 (* histories *)
@@ -118,5 +122,5 @@ Qed.
 Lemma owner_none_denies_all : forall s c o, o_updater (s_owner s) = UNone -> is_owner_op o = true ->
   snd (step s c o) = Fail EUnauthorized.
 Proof.
-  intros s c o Hu Ho. destruct o; try discriminate; cbn; unfold owner_update_permitted; rewrite Hu; reflexivity.
+  intros s c o Hu Ho. destruct o; try discriminate; cbn; unfold owner_update_permitted; try rewrite Hu; reflexivity.
 Qed.
